@@ -47,6 +47,10 @@ pub struct VExportMap<W> { m: std::collections::HashMap<String, W> }
 impl<W> VExportMap<W> {
     pub uninterp spec fn view(&self) -> Map<Seq<char>, W>;
     #[verifier::external_body]
+    pub fn len(&self) -> (r: usize) ensures r == self@.dom().len() { unimplemented!() }
+    #[verifier::external_body]
+    pub fn is_empty(&self) -> (r: bool) ensures r == (self@.dom().len() == 0) { unimplemented!() }
+    #[verifier::external_body]
     pub fn contains_key(&self, k: &String) -> (r: bool) ensures r == self@.contains_key(k@) { unimplemented!() }
     #[verifier::external_body]
     pub fn get_mut<'a>(&'a mut self, k: &String) -> (r: Option<&'a mut W>)
